@@ -82,20 +82,43 @@ REGISTRY = {
                             "the chunked-coding automaton (R07.1); dispatch table; bounds and cursor alignment of the data copy "
                             "(R07.2); outer loop exits and windows (R07.3); ended/boundary predicates (R07.4); size line radix and "
                             "extension cut (R07.5); structure of the CRLF finder (R07.6); no zero-consumption cycle (R07.7)."),
+    "C05": dict(modules=["rules_parsers"], rules_attr="C05_RULES", min_instances=8, trusted_base=TB,
+                explanation="E4 abstract interpretation of parser::try_parse_response (httparse's verdict classes Partial / Complete(n) "
+                            "/ TooManyHeaders / other error are the inputs) and of the call and flow layers: need-more <=> Partial "
+                            "with nothing built or stored (R05.1), consumed count = Complete(n) forwarded unchanged (R05.2), field "
+                            "copy loop appends every element (R05.3), limit 128 (R05.4), version/status tables (R05.5), flow layer (R05.6)."),
+    "C20": dict(modules=["rules_parsers"], rules_attr="C20_RULES", min_instances=15, trusted_base=TB,
+                explanation="The same structural rules instantiated on the three public parsers: verdict-class tables, consumed-count "
+                            "provenance, append post-dominates the copy loop, limit array length N, version tables, checked "
+                            "status/method conversions; partial parser: absent version/status => need-more (R20.6), emptiness "
+                            "guard dominates the append (R20.7); no panic reachable from input bytes (R20.8)."),
 }
 
 _PENDING = "check not built yet in this round (planned static rules: DESIGN.md section 4)"
 NOT_APPLICABLE = {
-    "C01": _PENDING, "C02": _PENDING, "C03": _PENDING, "C05": _PENDING,
+    "C01": _PENDING, "C02": _PENDING, "C03": _PENDING, 
     
     "C12": _PENDING, "C16": _PENDING,
-    "C18": _PENDING, "C20": _PENDING,
+    "C18": _PENDING, 
     "C19": "quantitative liveness claim over two run-time lengths and hex-digit counts: no clause is visible in "
            "the shape of the code without evaluating that arithmetic (a solver or execution would be another "
            "technique family); a structural proxy would fire on correct rewrites. Not decided by static analysis.",
 }
 
 MANIFEST_META = {
+    "C05": dict(
+        technique="abstract interpretation over MIR (verdict-class tables, provenance) + CFG post-dominance rules",
+        design_ref="DESIGN.md section 4 C05",
+        level_text="Structural: what the library does with each verdict class of the tokeniser, for every path: need-more "
+                   "discipline, exact consumed-count provenance, all fields appended in order, limit, version/status mapping.",
+        level_note="NOT decided: that httparse says Partial on every strict prefix and Complete(|H|) on H, whitespace/obs-text "
+                   "handling (inside httparse: axiom). Known finding: the partial-redirect fallback (F6)."),
+    "C20": dict(
+        technique="abstract interpretation over MIR (verdict-class tables, provenance) + CFG dominance/post-dominance rules",
+        design_ref="DESIGN.md section 4 C20",
+        level_text="Structural rules on all three public parsers (see C05) plus the partial parser's need-more and "
+                   "only-complete-fields guards; no panic from input bytes.",
+        level_note="NOT decided: httparse's grammar (axiom: verdict classes are inputs)."),
     "C07": dict(
         technique="abstract interpretation over MIR: extracted transition relation vs automaton; order reasoning for bounds",
         design_ref="DESIGN.md section 4 C07",
